@@ -33,15 +33,31 @@ pub fn repair_solution_from_unknown(
         .flat_map(|route_ctx| {
             let route_idx = get_new_route_ctx_idx(&mut new_insertion_ctx, route_ctx);
 
-            let synchronized = synchronize_jobs(route_ctx, &mut new_insertion_ctx, route_idx, &assigned_jobs, &goal);
+            let mut skipped_jobs = assigned_jobs.clone();
+            let mut invalid_jobs = Vec::default();
 
-            assigned_jobs.extend(synchronized.keys().cloned());
+            loop {
+                let synchronized = synchronize_jobs(route_ctx, &mut new_insertion_ctx, route_idx, &skipped_jobs, &goal);
+                let invalid = unassign_invalid_multi_jobs(&mut new_insertion_ctx, route_idx, &synchronized);
 
-            new_insertion_ctx.solution.unassigned.retain(|j, _| !synchronized.contains_key(j));
-            new_insertion_ctx.solution.ignored.retain(|j| !synchronized.contains_key(j));
-            new_insertion_ctx.solution.required.retain(|j| !synchronized.contains_key(j));
+                if invalid.is_empty() {
+                    assigned_jobs.extend(synchronized.keys().cloned());
 
-            unassign_invalid_multi_jobs(&mut new_insertion_ctx, route_idx, synchronized)
+                    new_insertion_ctx.solution.unassigned.retain(|j, _| !synchronized.contains_key(j));
+                    new_insertion_ctx.solution.ignored.retain(|j| !synchronized.contains_key(j));
+                    new_insertion_ctx.solution.required.retain(|j| !synchronized.contains_key(j));
+
+                    break;
+                }
+
+                // NOTE: other jobs were accepted on assumption that invalid multi jobs are served (e.g. their delivery
+                // frees capacity), so start the route over without them
+                remove_synchronized_jobs(&mut new_insertion_ctx, route_idx, &synchronized, &invalid);
+                skipped_jobs.extend(invalid.iter().cloned());
+                invalid_jobs.extend(invalid);
+            }
+
+            invalid_jobs
         })
         .collect::<HashSet<_>>();
 
@@ -173,10 +189,29 @@ fn is_activity_to_single_match(activity: &Activity, single: &Single) -> bool {
         .unwrap_value()
 }
 
+/// Removes jobs which were synchronized in the route (except already removed invalid ones) and makes them pending again.
+fn remove_synchronized_jobs(
+    new_insertion_ctx: &mut InsertionContext,
+    route_idx: usize,
+    synchronized: &HashMap<Job, Vec<Arc<Single>>>,
+    invalid: &[Job],
+) {
+    let goal = new_insertion_ctx.problem.goal.clone();
+    let new_route_ctx = new_insertion_ctx.solution.routes.get_mut(route_idx).unwrap();
+
+    let jobs = synchronized.keys().filter(|job| !invalid.contains(job)).cloned().collect::<Vec<_>>();
+    jobs.iter().for_each(|job| {
+        new_route_ctx.route_mut().tour.remove(job);
+    });
+    goal.accept_route_state(new_route_ctx);
+
+    new_insertion_ctx.solution.required.extend(jobs);
+}
+
 fn unassign_invalid_multi_jobs(
     new_insertion_ctx: &mut InsertionContext,
     route_idx: usize,
-    synchronized: HashMap<Job, Vec<Arc<Single>>>,
+    synchronized: &HashMap<Job, Vec<Arc<Single>>>,
 ) -> Vec<Job> {
     let goal = new_insertion_ctx.problem.goal.clone();
     let new_route_ctx = new_insertion_ctx.solution.routes.get_mut(route_idx).unwrap();
